@@ -634,6 +634,8 @@ func (r *runner) step(i int, o *sop) (e ev, stop bool) {
 		}
 	case "gc2":
 		r.gc2(o, e)
+	case "gcp":
+		r.gcp(o, e)
 	case "free":
 		r.free(o, e)
 	case "readall":
